@@ -24,6 +24,12 @@ pub enum Cb {
     BoolShort,
     /// payload borrowed from the source (`&'s str` / `&'s [u8]`)
     Borrow,
+    /// stateful (`extras = Ctr`): skip callback that advances the counter
+    CountSkip,
+    /// stateful: advances the counter and emits it (payload `u32`)
+    Seq,
+    /// stateful: emits the counter unchanged (payload `u32`)
+    Line,
 }
 
 pub struct P {
@@ -44,7 +50,9 @@ pub type S = (&'static str, usize, &'static str);
 pub struct D {
     pub name: &'static str,
     pub utf8: bool,
-    /// `#[logos(skip(..))]` attributes on the enum itself (no variant, no callback)
+    /// further enum-level `#[logos(..)]` arguments, one attribute each (e.g. an error type with a callback)
+    pub attrs: &'static [&'static str],
+    /// `#[logos(skip(..))]` attributes on the enum itself (no variant; a callback, if any, is part of the extra text)
     pub skips: &'static [S],
     pub pats: &'static [P],
     /// input fragments: tokens, proper prefixes of tokens, near misses (UTF-8 text or hex with `x:` prefix)
@@ -71,37 +79,37 @@ const fn tx(lit: &'static str, prio: usize, cb: Cb, extra: &'static str, var: &'
 }
 
 pub const TABLE: &[D] = &[
-    D { name: "Kw", utf8: true, skips: &[], pats: &[
+    D { name: "Kw", utf8: true, attrs: &[], skips: &[], pats: &[
         t(r#""abc""#, 6, "Abc"), t(r#""abcd""#, 8, "Abcd"), r(r#""[a-d]+""#, 1, "Id"), rc(r#""[ ]+""#, 2, Cb::Skip, "Sp"),
     ], frags: &["abc", "abcd", "ab", " ", "  ", "abcda", "e", "d", "abce"] },
 
-    D { name: "Num", utf8: true, skips: &[], pats: &[
+    D { name: "Num", utf8: true, attrs: &[], skips: &[], pats: &[
         r(r#""[0-9]+""#, 2, "Int"), r(r#"r"[0-9]+\.[0-9]+""#, 3, "Float"), r(r#"r"[0-9]+\.[0-9]+e[0-9]+""#, 4, "Exp"),
         t(r#"".""#, 2, "Dot"), t(r#""...""#, 6, "Ell"), rc(r#""[ ]""#, 2, Cb::Skip, "Sp"),
     ], frags: &["1", "12", "1.5", "1.5e3", ".", "..", "...", " ", "1.", "1.5e", "x", "....", "9.9e"] },
 
-    D { name: "Uni", utf8: true, skips: &[], pats: &[
+    D { name: "Uni", utf8: true, attrs: &[], skips: &[], pats: &[
         r(r#"r"\p{L}+""#, 2, "Word"), r(r#""[0-9]+""#, 2, "Int"), t(r#""é€""#, 10, "Special"), rc(r#"r"\s""#, 2, Cb::Skip, "Sp"),
     ], frags: &["é", "€", "é€", "ab", "1", " ", "\u{2003}", "ж", "𝔸", "-", "éé", "€€"] },
 
-    D { name: "StrCom", utf8: true, skips: &[], pats: &[
+    D { name: "StrCom", utf8: true, attrs: &[], skips: &[], pats: &[
         r(r##"r#""([^"\\]|\\.)*""#"##, 4, "S"), rx(r#"r"//[^\n]*""#, 4, Cb::Unit, "allow_greedy = true", "LineComment"),
         r(r#"r"/\*([^*]|\*[^/])*\*/""#, 6, "Block"), t(r#""/""#, 2, "Slash"), r(r#""[a-z]+""#, 2, "Id"),
         rc(r#"r"[ \n]+""#, 2, Cb::Skip, "Sp"),
     ], frags: &["\"", "\\", "\"a\"", "//", "/*", "*/", "/", "a", "\n", " ", "*", "\"\\\"\"", "// x", "/* y */", "/**/", "\"é\""] },
 
-    D { name: "Look", utf8: true, skips: &[], pats: &[
+    D { name: "Look", utf8: true, attrs: &[], skips: &[], pats: &[
         r(r#"r"a|bc(?-u:\b)""#, 2, "L"), r(r#"r"x+$""#, 2, "XEnd"), r(r#"r"(?m)y+$""#, 2, "YEol"), t(r#""\n""#, 2, "Nl"),
         rc(r#""[ ]+""#, 2, Cb::Skip, "Sp"), r(r#""[xyz]""#, 1, "Single"), r(r#""q$""#, 2, "QEnd"), t(r#""r""#, 4, "R"),
     ], frags: &["a", "bc", "x", "xx", "y", "yy", "\n", " ", "z", "b", "bcx", "bc ", "q", "qr", "qq", "yy\n", "xx\n"] },
 
     // tests/tests/partial.rs
-    D { name: "Dots", utf8: true, skips: &[], pats: &[
+    D { name: "Dots", utf8: true, attrs: &[], skips: &[], pats: &[
         rc(r#"r" ""#, 2, Cb::SkipClosure, "Space"), t(r#"".""#, 2, "Accessor"), t(r#""...""#, 6, "Ellipsis"),
     ], frags: &[".", "..", "...", " ", ". ", ".. ", "...."] },
 
     // examples/json_reader.rs (same patterns; payload callbacks replaced by the menu)
-    D { name: "Json", utf8: false, skips: &[], pats: &[
+    D { name: "Json", utf8: false, attrs: &[], skips: &[], pats: &[
         t(r#""false""#, 10, "False"), t(r#""true""#, 8, "True"), t(r#""{""#, 2, "BraceOpen"), t(r#""}""#, 2, "BraceClose"),
         t(r#""[""#, 2, "BracketOpen"), t(r#""]""#, 2, "BracketClose"), t(r#"":""#, 2, "Colon"), t(r#"",""#, 2, "Comma"),
         t(r#""null""#, 8, "Null"),
@@ -112,107 +120,127 @@ pub const TABLE: &[D] = &[
                "\"\\u00e9\"", "\"\\u00", "\"", " ", "\n", "fals", "nul", "tru", "\"é\"", "x:ff", "x:c3"] },
 
     // literal of 9+ bytes: the 8-byte batch read path
-    D { name: "LongLit", utf8: true, skips: &[], pats: &[
+    D { name: "LongLit", utf8: true, attrs: &[], skips: &[], pats: &[
         t(r#""functional""#, 20, "Functional"), t(r#""function""#, 16, "Function"), t(r#""fun""#, 6, "Fun"),
         r(r#""[a-z]+""#, 1, "Id"), rc(r#""[ \t]+""#, 2, Cb::Skip, "Ws"), t(r#""=================""#, 34, "Rule"), r(r#""=+""#, 1, "Eqs"),
     ], frags: &["functional", "function", "fun", "functiona", "functio", "fu", "f", " ", "x", "=================", "================", "=", "==", "functionalx"] },
 
-    D { name: "Loops", utf8: true, skips: &[], pats: &[
+    D { name: "Loops", utf8: true, attrs: &[], skips: &[], pats: &[
         r(r#""(ab)+c""#, 6, "Abc"), r(r#""(ab)+""#, 4, "Ab"), r(r#""a+""#, 2, "As"), r(r#""(a|b)*d""#, 5, "ABd"),
         r(r#""((xy)+z)+w""#, 4, "Nest"), r(r#""[xyzw]""#, 1, "One"),
     ], frags: &["ab", "abab", "ababc", "a", "aa", "b", "abd", "d", "c", "xyz", "xyzw", "xyxyz", "xyzxyzw", "x", "xy", "w", "aba"] },
 
-    D { name: "Lazy", utf8: true, skips: &[], pats: &[
+    D { name: "Lazy", utf8: true, attrs: &[], skips: &[], pats: &[
         r(r#"r"<.*?>""#, 4, "Tag"), r(r#"r"\[[a-z]*?\]""#, 4, "Br"), r(r#""[a-z]+?""#, 1, "Id"), t(r#""<""#, 1, "Lt"), t(r#""[""#, 1, "Lb"),
         rc(r#""[ ]+""#, 2, Cb::Skip, "Sp"),
     ], frags: &["<", ">", "<a>", "<a", "<>", "[", "]", "[ab]", "[ab", "a", "ab", " ", "<a>>", "<é>"] },
 
-    D { name: "BytesHi", utf8: false, skips: &[], pats: &[
+    D { name: "BytesHi", utf8: false, attrs: &[], skips: &[], pats: &[
         r(r#"b"[\x80-\xBF]+""#, 2, "Cont"), t(r#"b"\xCA\xFE\xBE\xEF""#, 8, "CafeBeef"), t(r#"b"\xCA\xFE""#, 4, "Cafe"),
         r(r#"b"[a-z]+""#, 2, "Word"), t(r#"b"\x00""#, 2, "Zero"), r(r#"b"\xFF[\x00-\xFF]""#, 3, "Tagged"), r(r#"b"[\xC0-\xFE]""#, 1, "Lead"),
     ], frags: &["x:cafebeef", "x:cafe", "x:ca", "x:cafebe", "x:8090", "x:bf", "abc", "x:00", "x:ff01", "x:ff", "x:ffff", "x:c3", "x:10", "x:fe"] },
 
     // Unicode-aware patterns in byte mode: they never match invalid sequences
-    D { name: "UniBytes", utf8: false, skips: &[], pats: &[
+    D { name: "UniBytes", utf8: false, attrs: &[], skips: &[], pats: &[
         r(r#"r"\p{L}+""#, 2, "Word"), r(r#""[0-9]+""#, 2, "Int"), t(r#""é€""#, 10, "Special"), rc(r#"r"\s""#, 2, Cb::Skip, "Sp"),
         r(r#"b"[\x80-\xFF]""#, 1, "Byte"),
     ], frags: &["é", "€", "é€", "ab", "1", " ", "ж", "𝔸", "-", "x:c3", "x:e2", "x:e282", "x:f09d94", "x:a9", "x:ff", "x:c3a9", "x:e282ac"] },
 
-    D { name: "Filt", utf8: true, skips: &[], pats: &[
+    D { name: "Filt", utf8: true, attrs: &[], skips: &[], pats: &[
         rc(r#""[a-z]+""#, 2, Cb::FilterEven, "Word"), rc(r#""[0-9]+""#, 2, Cb::OptOdd, "Digits"), rc(r#""!+""#, 2, Cb::BoolShort, "Bangs"),
         rc(r#""[ ]+""#, 2, Cb::SkipClosure, "Sp"), tc(r#""()""#, 4, Cb::Len, "Unit"), t(r#""(""#, 2, "Open"),
     ], frags: &["a", "ab", "abc", "1", "12", "123", "!", "!!", "!!!", " ", "()", "(", ")", "ab12", "a!"] },
 
-    D { name: "EndAnchor", utf8: true, skips: &[], pats: &[
+    D { name: "EndAnchor", utf8: true, attrs: &[], skips: &[], pats: &[
         r(r#"r"w+\z""#, 3, "WEnd"), r(r#""w+""#, 2, "W"), r(r#"r"end$""#, 8, "End"), r(r#""[a-z]""#, 1, "Ch"), rc(r#""[ ]""#, 2, Cb::Skip, "Sp"),
         r(r#"r"k(?m:$)""#, 3, "KEol"), t(r#""\n""#, 2, "Nl"),
     ], frags: &["w", "ww", "end", "en", "e", " ", "x", "endw", "wend", "k", "k\n", "kk", "\n"] },
 
-    D { name: "WordB", utf8: true, skips: &[], pats: &[
+    D { name: "WordB", utf8: true, attrs: &[], skips: &[], pats: &[
         r(r#"r"if(?-u:\b)""#, 6, "If"), r(r#"r"in(?-u:\b)""#, 6, "In"), r(r#""[a-z_]+""#, 2, "Id"), r(r#""[0-9]+""#, 2, "Int"),
         rc(r#""[ ]+""#, 2, Cb::Skip, "Sp"), t(r#""(""#, 2, "Open"), r(r#"r"-(?-u:\B)""#, 3, "Dash"), t(r#""-""#, 2, "Minus"),
     ], frags: &["if", "in", "i", "iff", "int", "if(", "if ", "x", "1", " ", "(", "-", "--", "-a", "- ", "if_"] },
 
-    D { name: "CaseI", utf8: true, skips: &[], pats: &[
+    D { name: "CaseI", utf8: true, attrs: &[], skips: &[], pats: &[
         tx(r#""select""#, 12, Cb::Unit, "ignore(case)", "Select"), tx(r#""straße""#, 14, Cb::Unit, "ignore(case)", "Strasse"),
         rx(r#""[a-z]+""#, 1, Cb::Unit, "ignore(case)", "Id"), rc(r#""[ ]+""#, 2, Cb::Skip, "Sp"), r(r#"r"\p{Greek}+""#, 2, "Greek"),
     ], frags: &["select", "SELECT", "SeLeCt", "selec", "selectx", "straße", "STRASSE", "STRAßE", "Straß", " ", "αβ", "Ω", "ſ", "K", "sel"] },
 
-    D { name: "Counted", utf8: true, skips: &[], pats: &[
+    D { name: "Counted", utf8: true, attrs: &[], skips: &[], pats: &[
         r(r#""a{2,4}""#, 4, "A24"), r(r#""a{5}b""#, 12, "A5b"), r(r#""[ab]{3}c""#, 8, "Ab3c"), r(r#""[abc]""#, 1, "One"), r(r#""(ab){2,}""#, 7, "Ab2"),
     ], frags: &["a", "aa", "aaa", "aaaa", "aaaaa", "aaaaab", "b", "abc", "abac", "abab", "ababab", "c", "aab", "aabc"] },
 
-    D { name: "Alt", utf8: true, skips: &[], pats: &[
+    D { name: "Alt", utf8: true, attrs: &[], skips: &[], pats: &[
         r(r#""foo|foobar|foob""#, 6, "Foo"), t(r#""bar""#, 6, "Bar"), t(r#""ba""#, 4, "Ba"), r(r#""[a-z]""#, 1, "Ch"),
         r(r#""foobarbaz|fo""#, 5, "Fo"), rc(r#""[ ]""#, 2, Cb::Skip, "Sp"),
     ], frags: &["foo", "foob", "fooba", "foobar", "foobarba", "foobarbaz", "fo", "f", "bar", "ba", "b", " ", "x"] },
 
     // tests/tests/advanced.rs flavour
-    D { name: "Adv", utf8: true, skips: &[], pats: &[
+    D { name: "Adv", utf8: true, attrs: &[], skips: &[], pats: &[
         r(r#"r"[0-9]*\.[0-9]+([eE][+-]?[0-9]+)?|[0-9]+[eE][+-]?[0-9]+""#, 4, "Float"), r(r#""[0-9]+""#, 2, "Int"),
         r(r#""0[xX][0-9a-fA-F]+""#, 6, "Hex"), r(r#"r"[a-zA-Z_$][a-zA-Z0-9_$]*""#, 2, "Ident"), t(r#""+""#, 2, "Plus"), t(r#""-""#, 2, "Minus"),
         t(r#""..""#, 4, "DotDot"), t(r#"".""#, 2, "Dot"), rc(r#"r"[ \t\n\f]+""#, 2, Cb::Skip, "Ws"), t(r#""~~""#, 4, "What"),
         r(r#"r"~(?:~?[^~])*~""#, 3, "Sig"),
     ], frags: &["1", "1.", ".5", "1.5", "1e5", "1e", "1e+", "1e+5", "0x", "0xF", "0xfg", "a1", "$", "+", "-", ".", "..", "...", " ", "~", "~~", "~a~", "~~a~", "~a~~", "1..2"] },
 
-    D { name: "Markup", utf8: true, skips: &[], pats: &[
+    D { name: "Markup", utf8: true, attrs: &[], skips: &[], pats: &[
         r(r#"r"<!--([^-]|-[^-]|--[^>])*-->""#, 8, "Comment"), r(r#""<[a-z]+>""#, 6, "OpenTag"), t(r#""<""#, 2, "Lt"), r(r#""[^<]+""#, 1, "Text"),
     ], frags: &["<", "<!", "<!--", "<!-- x", "<!-- x -", "<!-- x --", "<!-- x -->", "<a>", "<ab", "text", "é", "-", "->", "-->", ">"] },
 
-    D { name: "Emoji", utf8: true, skips: &[], pats: &[
+    D { name: "Emoji", utf8: true, attrs: &[], skips: &[], pats: &[
         r(r#"r"[\u{1F980}-\u{1F984}]+""#, 2, "Crabs"), t(r#""🦀🦀""#, 16, "TwoCrabs"), r(r#""[a-z]+""#, 2, "Word"), rc(r#""[ ]""#, 2, Cb::Skip, "Sp"),
         r(r#"r"[\u{80}-\u{7FF}]""#, 1, "TwoByte"), r(r#"r"\u{1F40D}x?""#, 3, "Snake"),
     ], frags: &["🦀", "🦀🦀", "🦀🦀🦀", "🦂", "a", " ", "é", "ж", "🐍", "🐍x", "€", "𝔸"] },
 
-    D { name: "SkipHeavy", utf8: true, skips: &[], pats: &[
+    D { name: "SkipHeavy", utf8: true, attrs: &[], skips: &[], pats: &[
         rc(r#"r"[ \t]+""#, 2, Cb::Skip, "Ws"), rx(r##"r"#[^\n]*""##, 3, Cb::Skip, "allow_greedy = true", "Comment"), t(r#""x""#, 2, "X"),
         t(r#""\n""#, 2, "Nl"), rc(r#"r"\\\n""#, 4, Cb::SkipClosure, "Cont"), t(r#""\\""#, 2, "Backslash"),
     ], frags: &[" ", "\t", "  ", "#", "# c", "# c\n", "x", "\n", "\\", "\\\n", "xx", " x "] },
 
-    D { name: "RawBytes", utf8: false, skips: &[], pats: &[
+    D { name: "RawBytes", utf8: false, attrs: &[], skips: &[], pats: &[
         r(r#"b"\x00+""#, 2, "Zeros"), t(r#"b"\x00\x01""#, 6, "ZeroOne"), r(r#"b"[\x01-\x05]{2,3}""#, 4, "Low"), r(r#"b"[\x01-\x09]""#, 1, "One"),
         rc(r#"b"\x20+""#, 2, Cb::Skip, "Sp"), r(r#"b"\xF0[\x90-\xBF][\x80-\xBF]{2}""#, 8, "FourByte"), r(r#"b"[\xE0-\xFF]""#, 1, "HiByte"),
     ], frags: &["x:00", "x:0000", "x:0001", "x:01", "x:0102", "x:010203", "x:01020304", "x:06", "x:20", "x:f0909080", "x:f09090", "x:f090", "x:f0", "x:ff", "x:0a"] },
 
     // enum-level skips without callbacks, one of them comment-like: an opener followed by a body whose bytes are
     // ordinary token bytes when lexed from the root
-    D { name: "Ini", utf8: true, skips: &[(r#"r"[ \t]+""#, 2, ""), (r##"r"#[ -~]*""##, 3, "")], pats: &[
+    D { name: "Ini", utf8: true, attrs: &[], skips: &[(r#"r"[ \t]+""#, 2, ""), (r##"r"#[ -~]*""##, 3, "")], pats: &[
         r(r#""[a-z]+""#, 2, "Key"), t(r#""=""#, 2, "Eq"), r(r#""[0-9]+""#, 2, "Num"), t(r#""\n""#, 2, "Nl"), r(r##"r#""[^"\n]*""#"##, 4, "Str"),
     ], frags: &["key", "=", "12", "\n", " ", "\t", "#", "# c", "# key = 1", "#a\n", "\"v\"", "\"", "k=v", "  "] },
 
-    D { name: "BytesComment", utf8: false, skips: &[(r#"r"(?-u)//[^\n]*""#, 4, "allow_greedy = true"), (r#"r"[ \n]+""#, 2, "")], pats: &[
+    D { name: "BytesComment", utf8: false, attrs: &[], skips: &[(r#"r"(?-u)//[^\n]*""#, 4, "allow_greedy = true"), (r#"r"[ \n]+""#, 2, "")], pats: &[
         t(r#""/""#, 2, "Slash"), r(r#""[a-z]+""#, 2, "Word"), r(r#"b"[\x80-\xFF]+""#, 2, "High"), t(r#""*""#, 2, "Star"),
     ], frags: &["/", "//", "// ab", "// ab\n", "ab", " ", "\n", "*", "x:ff", "x:c3a9", "/ /", "//x:ff"] },
 
     // one leaf = a match-carrying repetition followed by a non-extendable optional ending (or an alternative that
     // cannot be extended): after the ending the token is final although the leaf's loop state is still "open"
-    D { name: "OptTail", utf8: true, skips: &[(r#"r"[ ]+""#, 2, "")], pats: &[
+    D { name: "OptTail", utf8: true, attrs: &[], skips: &[(r#"r"[ ]+""#, 2, "")], pats: &[
         r(r#""[0-9]+%?""#, 4, "Percent"), r(r#""[a-z]+!?""#, 3, "Word"), r(r#""x+|y""#, 6, "Xy"), r(r#""a+b?""#, 8, "Ab"),
         r(r##"r"#+;?""##, 5, "Hashes"), t(r#""%""#, 2, "Pct"), t(r#""!""#, 2, "Bang"), t(r#"";""#, 2, "Semi"),
     ], frags: &["12", "12%", "1%%", "ab", "a", "aab", "abb", "x", "xx", "y", "yy", "xy", "w!", "w!!", "#", "##;", "#;;", " ", "%", "!", ";"] },
 
-    D { name: "Borrowed", utf8: true, skips: &[], pats: &[
+    D { name: "Borrowed", utf8: true, attrs: &[], skips: &[], pats: &[
         rc(r#""[a-z]+""#, 2, Cb::Borrow, "Word"), rc(r#""[0-9]+""#, 2, Cb::Len, "Num"), tc(r#""::""#, 4, Cb::Borrow, "Path"), t(r#"":""#, 2, "Colon"),
         rc(r#"r"\s+""#, 2, Cb::Skip, "Ws"),
     ], frags: &["a", "abc", "1", "12", ":", "::", ":::", " ", "\n", "a:", "é"] },
+
+    // ---- stateful definitions (`extras = Ctr`): a streaming consumer carries the counter from lexer to lexer; every
+    // stateful callback must run exactly once per final match, whatever the chunking (oracle X1)
+    D { name: "Lines", utf8: true, attrs: &[], skips: &[(r#"r"[ \t]+""#, 2, "")], pats: &[
+        rc(r#""\n""#, 2, Cb::CountSkip, "Nl"), rc(r#""[a-z]+""#, 2, Cb::Seq, "Word"), rc(r#""[0-9]+""#, 2, Cb::Line, "Num"),
+        rx(r#"r"//[^\n]*""#, 4, Cb::CountSkip, "allow_greedy = true", "Comment"), t(r#""=""#, 2, "Eq"), t(r#""==""#, 4, "EqEq"),
+        rc(r#"r"\r\n""#, 4, Cb::CountSkip, "CrLf"), t(r#""\r""#, 2, "Cr"),
+    ], frags: &["a", "ab", "1", "12", "\n", "\n\n", " ", "\t", "=", "==", "//", "// c", "// c\n", "\r", "\r\n", "a\nb", "a \n 1", "x=1\n"] },
+
+    D { name: "StatefulBytes", utf8: false, attrs: &[r#"error(u32, callback = |lex| { lex.extras.n += 100; lex.extras.n })"#],
+      skips: &[(r#"r"[ ]+""#, 2, "callback = |lex| { lex.extras.n += 1; }"), (r#"r"(?-u)#[^\n]*\n""#, 4, "allow_greedy = true, callback = |lex| { lex.extras.n += 7; }")], pats: &[
+        rc(r#"b"[a-z]+""#, 2, Cb::Seq, "Word"), rc(r#"b"[\x80-\xFF]{2}""#, 2, Cb::Line, "Pair"), tc(r#"b"\x00""#, 2, Cb::Seq, "Zero"),
+        rc(r#"b"[0-9]+""#, 2, Cb::OptOdd, "Digits"), t(r#"b"\n""#, 2, "Nl"), tc(r#"b"abcdefghij""#, 20, Cb::Line, "Long"),
+    ], frags: &["a", "ab", " ", "  ", "#", "# x", "# x\n", "\n", "1", "12", "x:00", "x:ff", "x:ffff", "x:c3a9", "abcdefghij", "abcdefghi", "!", "!!", "a 1"] },
+
+    D { name: "SeqLook", utf8: true, attrs: &[r#"error(u32, callback = |lex| { lex.extras.n += 1; lex.extras.n })"#],
+      skips: &[(r#"r"[ ]+""#, 2, "")], pats: &[
+        rc(r#"r"if(?-u:\b)""#, 6, Cb::Seq, "If"), rc(r#""[a-z]+""#, 2, Cb::Seq, "Id"), rc(r#"r"[0-9]+$""#, 4, Cb::Seq, "NumEnd"), rc(r#""[0-9]+""#, 2, Cb::Line, "Num"),
+        rc(r#"r"\n+""#, 2, Cb::CountSkip, "Nls"), rc(r#"";+""#, 2, Cb::FilterEven, "Semis"), rc(r#""é+""#, 2, Cb::Seq, "Es"),
+    ], frags: &["if", "iff", "i", "if ", "a", "1", "12", "\n", "\n\n", " ", ";", ";;", ";;;", "é", "éé", "!", "1\n", "if1"] },
 ];
